@@ -170,11 +170,19 @@ def function_twins(rng, rel):
     # the unit, it must do it to the component the permeance belongs to)
     pu = gen.tstr(rng, rng.choice([KG, KG, "SI", "GPU"]))
     out["perm_units"] = pu
+    # (sometimes only ONE component's permeance is stated - whatever the code does then, it does it to that component)
+    only = rng.choice([None, None, None, 1, 2])
+    out["only_explicit"] = only or 0
+    pka = {"first_component_permeance": pv.Permeance(a["P1"], pu), "second_component_permeance": pv.Permeance(a["P2"], pu)}
+    pkb = {"first_component_permeance": pv.Permeance(Pb[0], pu), "second_component_permeance": pv.Permeance(Pb[1], pu)}
+    if only is not None:
+        # component `only` of run a is component (3 - only) of a relabelled run b, and the same component of a rebased one
+        ka = "first_component_permeance" if only == 1 else "second_component_permeance"
+        kb = ka if rel != "swap" else ("second_component_permeance" if only == 1 else "first_component_permeance")
+        pka, pkb = {ka: pka[ka]}, {kb: pkb[kb]}
     ja, jb, e5, e6 = both(
-        lambda: [F(v) for v in pa.calculate_partial_fluxes(T, ca, first_component_permeance=pv.Permeance(a["P1"], pu),
-                                                            second_component_permeance=pv.Permeance(a["P2"], pu), **kw)],
-        lambda: [F(v) for v in pb.calculate_partial_fluxes(T, cb, first_component_permeance=pv.Permeance(Pb[0], pu),
-                                                            second_component_permeance=pv.Permeance(Pb[1], pu), **kw)])
+        lambda: [F(v) for v in pa.calculate_partial_fluxes(T, ca, **pka, **kw)],
+        lambda: [F(v) for v in pb.calculate_partial_fluxes(T, cb, **pkb, **kw)])
     # the other direction on the SAME object: the same number read as a mole fraction (a) vs its mass-fraction equivalent (b)
     if rel == "rebase":
         ca2 = pv.Composition(p=a["xw"], type="molar")
